@@ -130,8 +130,8 @@ def generate(seed, tier):
 class _Rec:
     """stand-in for a demultiplexed record (FastqHandle only needs .tags and str())"""
 
-    def __init__(self, cell, text):
-        self.tags = {'bi': cell, 'MX': 'SIM'}
+    def __init__(self, cell, text, mx='SIM'):
+        self.tags = {'bi': cell, 'MX': mx}
         self.text = text
 
     def __str__(self):
@@ -166,7 +166,7 @@ def run_plan(params, writes, fplan, log):
                permanent=[f'/sim/p{p}' for p in fplan['permanent']])
     clock = SimClock(params['clock'], jump_at=params['clock_jump_at'])
     for sp_ in params.get('stale') or []:
-        names = [f'/sim/p{sp_}'] if params['api'] == 'limiter' else [f'/sim/out.p{sp_}.SIM.R1.fastq.gz', f'/sim/out.p{sp_}.SIM.R2.fastq.gz']
+        names = [f'/sim/p{sp_}'] if params['api'] == 'limiter' else [f'/sim/out.p{sp_ // 2}.SIM{sp_ % 2}.R1.fastq.gz', f'/sim/out.p{sp_ // 2}.SIM{sp_ % 2}.R2.fastq.gz']
         for nm_ in names:
             old = '@wSTALE\nOLDRUN\n'
             fs.files[nm_] = io.BytesIO(gzip.compress(old.encode(), mtime=0) if params['method'] == 1 else old.encode())
@@ -194,7 +194,7 @@ def run_plan(params, writes, fplan, log):
     paired = params['paired'] and api == 'fastqhandle'
     if api == 'fastqhandle':
         # permanent failures name the R1 file of that cell
-        fs.permanent = {f'/sim/out.p{p}.SIM.R1.fastq.gz' for p in fplan['permanent']}
+        fs.permanent = {f'/sim/out.p{p // 2}.SIM{p % 2}.R1.fastq.gz' for p in fplan['permanent']}
     acked = {}      # path -> list of (payload, required)
     seen_closed = set()
     try:
@@ -212,9 +212,9 @@ def run_plan(params, writes, fplan, log):
                 if api == 'limiter':
                     ops = [(f'/sim/p{p}', _payload(i, ln))]
                 else:
-                    ops = [(f'/sim/out.p{p}.SIM.R1.fastq.gz', _payload(i, ln, 'a'))]
+                    ops = [(f'/sim/out.p{p // 2}.SIM{p % 2}.R1.fastq.gz', _payload(i, ln, 'a'))]
                     if paired:
-                        ops.append((f'/sim/out.p{p}.SIM.R2.fastq.gz', _payload(i, ln, 'b')))
+                        ops.append((f'/sim/out.p{p // 2}.SIM{p % 2}.R2.fastq.gz', _payload(i, ln, 'b')))
                 a0 = fs.attempts
                 open_before = dict(fs.open_paths)
                 raised = None
@@ -222,7 +222,7 @@ def run_plan(params, writes, fplan, log):
                     if api == 'limiter':
                         lim.write(ops[0][0], ops[0][1], method=method)
                     else:
-                        recs = [_Rec(f'p{p}', t) for _, t in ops]
+                        recs = [_Rec(f'p{p // 2}', t, mx=f'SIM{p % 2}') for _, t in ops]
                         h.write(recs)
                 except Exception as e:  # noqa
                     raised = e
